@@ -72,8 +72,8 @@ Proof. intros s t. unfold team_load. fu. Qed.
 Lemma pop_fu : fail_untouched (pop_load I iload idflt).
 Proof. intros s t. unfold pop_load. fu. Qed.
 
-Lemma summary_fu : fail_untouched (summary_load read_f I iload idflt).
-Proof. intros s t. unfold summary_load. fu. Qed.
+Lemma summary_fu : forall eread, fail_untouched (summary_load read_f I iload idflt eread).
+Proof. intros eread s t. unfold summary_load. fu. Qed.
 End Cont.
 
 Lemma dist_fu : fail_untouched (dist_load read_f).
